@@ -653,13 +653,13 @@ class Model(EconomicObject):
     def _IsExogenousDefinition(rhs):
         """
         Is the right hand side an exogenous definition: the marker EXOGENOUS (put there by _ProcessExogenous)
-        in front of the values? (A variable whose name merely contains that word - EXOGENOUS_G - does
-        not make an equation exogenous.)
+        in front of the values? (The blanks between the marker and the values may have been squeezed out:
+        'EXOGENOUS20.'. A sector variable whose name contains the word - EXOGENOUS_G - carries its sector
+        code in front by now, HH__EXOGENOUS_G, so it cannot be at the start of a right hand side.)
         :param rhs: str
         :return: bool
         """
-        rhs = rhs.strip()
-        return rhs.startswith('EXOGENOUS') and not (rhs[9:10].isalnum() or rhs[9:10] == '_')
+        return rhs.strip().startswith('EXOGENOUS')
 
     @staticmethod
     def _StripExogenousMarker(rhs):
